@@ -13,7 +13,7 @@ RULE = (
     "__hash__, expression-builder equality (== returns a truthy node), equality that raises on foreign operands, list subclass (receiver named 'me'), dict subclass (receiver named 'this'), subclass inheriting the "
     "method, subclass overriding it, class with a functools.wraps-decorated method (plain, over an already tooled function, applied while a probe was active on the function), class with a property} with small "
     "keys so that equal-but-distinct receivers occur, 1-3 selectors (often on receivers sharing one method; some activated part-way through the history, some deactivated - most recent first - while calls go on) from {Cls.meth > v, "
-    "obj.meth > v, box.holder.obj.meth > v (dotted path), sweep > obj.meth > v (the receiver condition sits in an inner call of a call path; sweep calls the method on every instance), decorated method through class or object, property through "
+    "obj.meth > v, box.holder.obj.meth > v (dotted path), objI.relay > objJ.meth > v (two bound methods on one path, both receivers usually named self), sweep > obj.meth > v (the receiver condition sits in an inner call of a call path; sweep calls the method on every instance), decorated method through class or object, property through "
     "the class}, and a random sequence of 4-14 calls over the population plus calls of a module-level function that "
     "shares the method's name.  Oracle per selector: class form -> one event per call that executes that function "
     "object; object form -> exactly the calls whose receiver `is` the object, each event carrying that receiver under "
@@ -47,6 +47,9 @@ class Plain:
     def meth(self, x):
         v = x + self.k
         return v
+    def relay(self, other, x):
+        r = other.meth(x)
+        return r
 
 class Eq(Plain):
     def __eq__(self, other):
@@ -131,6 +134,12 @@ def meth(x):
     v = -x
     return v
 
+class Star:
+    """a method without a named receiver parameter"""
+    def meth(*args):
+        v = args[1] * 2
+        return v
+
 class Box:
     pass
 
@@ -140,6 +149,7 @@ def sweep(objs, x):
         out.append(o.pval if hasattr(type(o), "pval") else o.meth(x))
     return out
 '''
+PLAIN_FAMILY = ("Plain", "Eq", "EqNoHash", "Sub", "Over", "EqExpr", "EqSloppy")
 KINDS = ["Plain", "Eq", "EqNoHash", "Sub", "Over", "L", "D", "Deco", "Prop", "EqExpr", "EqSloppy", "DecoTooled", "DecoLate"]
 RECV = {"L": "me", "D": "this"}
 
@@ -219,8 +229,19 @@ def gen_case(rnd):
             sels.append(["object", j, rnd.choice(["direct", "dotted", "direct", "under_sweep"])])
         else:
             sels.append(["class", kind])
+    # a path of two bound methods: oI.relay > oJ.meth > v (both receivers are usually called self)
+    relayers = [jj for jj, (kk, _) in enumerate(pop) if kk in PLAIN_FAMILY]
+    targets_ = [jj for jj, (kk, _) in enumerate(pop) if kk != "Prop"]
+    chain = None
+    if relayers and targets_ and rnd.random() < 0.3:
+        chain = ["chain", rnd.choice(relayers), rnd.choice(targets_)]
+        sels.append(chain)
     calls = []
     for c in range(rnd.randint(4, 14)):
+        if relayers and targets_ and rnd.random() < (0.35 if chain else 0.05):
+            i_, j_ = (chain[1], chain[2]) if chain and rnd.random() < 0.5 else (rnd.choice(relayers), rnd.choice(targets_))
+            calls.append(["relay", i_, j_, 300 + c])
+            continue
         if rnd.random() < 0.12:
             calls.append(["namesake", 100 + c])
         else:
@@ -260,6 +281,19 @@ def run_case(ns, case, res):
                 text = f"{kind}.pval > v" if kind == "Prop" else f"{kind}.meth > v"
                 target_fn = func_of(ns, kind)
                 want = {"mode": "class", "fn": target_fn}
+            elif sel[0] == "chain":
+                i, j = sel[1], sel[2]
+                kind = case["pop"][j][0]
+                text = f"o{i}.relay > o{j}.meth > v"
+                want = {"mode": "chain", "outer": pop[i], "obj": pop[j], "recv": RECV.get(kind, "self")}
+                if kind in ("EqNoHash", "L", "D") or case["pop"][i][0] == "EqNoHash":
+                    info["unhashable_probed"] = True
+                for o2 in pop:
+                    try:
+                        if (o2 is not pop[j] and o2 == pop[j]) or (o2 is not pop[i] and o2 == pop[i]):
+                            info["equal_distinct"] = True
+                    except Exception:
+                        pass
             else:
                 j = sel[1]
                 kind = case["pop"][j][0]
@@ -309,7 +343,14 @@ def run_case(ns, case, res):
                 if r != -call[1]:
                     problems.append({"problem": f"namesake meth({call[1]}) returned {r}"})
                 continue
-            if call[0] == "sweep":
+            relayer = None
+            if call[0] == "relay":
+                i, j, x = call[1], call[2], call[3]
+                relayer = pop[i]
+                targets = [j]
+                rs = [pop[i].relay(pop[j], x)]
+                under = False
+            elif call[0] == "sweep":
                 x = call[1]
                 targets = list(range(len(pop)))
                 rs = ns["sweep"](pop, x)
@@ -333,6 +374,9 @@ def run_case(ns, case, res):
                     if w["mode"] == "class":
                         if func_of(ns, kind) is w["fn"]:
                             p["expected"].append((ev, None))
+                    elif w["mode"] == "chain":
+                        if relayer is w["outer"] and o is w["obj"]:
+                            p["expected"].append((ev, id(o)))
                     else:
                         if o is w["obj"] and (under or not w.get("only_under_sweep")):
                             p["expected"].append((ev, id(o)))
@@ -345,6 +389,14 @@ def run_case(ns, case, res):
                     got.append((e.get("v"), None))
                     if set(e) != {"v"}:
                         problems.append({"selector": p["text"], "problem": f"unexpected keys in event {sorted(e)}"})
+                elif w["mode"] == "chain":
+                    # the inner receiver is reported under its parameter's name, or under an automatic
+                    # name when the outer receiver's parameter has the same name
+                    hidden = [val for key, val in e.items() if key.startswith("/")]
+                    rcv = e.get(w["recv"], "<missing>") if w["recv"] != "self" else (hidden[0] if hidden else "<missing>")
+                    got.append((e.get("v"), id(rcv) if not isinstance(rcv, str) else rcv))
+                    if e.get("self") is not w["outer"]:
+                        problems.append({"selector": p["text"], "problem": "the outer receiver is not reported as self"})
                 else:
                     rcv = e.get(w["recv"], "<missing>")
                     got.append((e.get("v"), id(rcv) if not isinstance(rcv, str) else rcv))
@@ -403,6 +455,35 @@ def has_trigger(case):
     return False
 
 
+def check_star(ns, res):
+    """obj.meth where meth has no named receiver parameter: the class form works, the object form is
+    refused with a SelectorError (there is no name to report the receiver under), never an IndexError."""
+    from ptera import probing
+    from ptera.selector import SelectorError
+
+    env = dict(ns)
+    env["ostar"] = ns["Star"]()
+    res.evaluations += 1
+    res.deciding += 1
+    out = []
+    with probing("Star.meth > v", env=env) as p:
+        p.subscribe(out.append)
+        env["ostar"].meth(4)
+    if out != [{"v": 8}]:
+        res.violation({"star": "class"}, [{"problem": f"Star.meth > v delivered {out}"}])
+    try:
+        with probing("ostar.meth > v", env=env) as p:
+            p.subscribe(out.append)
+            env["ostar"].meth(5)
+        got = out[1:]
+        if got and not all(any(val is env["ostar"] for val in e.values()) for e in got):
+            res.violation({"star": "object"}, [{"problem": f"ostar.meth > v was accepted but does not report the receiver: {got}"}])
+    except SelectorError:
+        res.count("star_method_object_selector_refused")
+    except Exception as ex:
+        res.violation({"star": "object"}, [{"problem": f"ostar.meth > v failed with {type(ex).__name__}: {ex} (expected a SelectorError or a working probe)"}])
+
+
 def run_shard(spec):
     res = ShardResult()
     known = set(spec.get("known", []))
@@ -413,6 +494,8 @@ def run_shard(spec):
     for n, i in enumerate(range(s0, s0 + cnt)):
         if ns is None or n % 40 == 0:
             ns = load(spec["scratch"], f"{s0}_{n}")
+            if n == 0:
+                check_star(ns, res)
         rnd = rng_for("C13", spec["seed"], i)
         case = gen_case(rnd)
         trig = has_trigger(case)
